@@ -56,6 +56,31 @@ Theorem C03_terminates :
 Proof. exact find_roots_terminates. Qed.
 Print Assumptions C03_terminates.
 
+(* Failing source operations (Predecessors / Referrers / the Fetch of a missing field), any
+   position k of the armed fault: when findRoots nevertheless succeeds, its result is the
+   fault-free one -- no error is swallowed into a partial predecessor list or root set; so
+   every theorem above applies to every successful call.  Without a fault the error-aware
+   model is the plain one. *)
+Theorem C03_errors_surface :
+  forall (fuel : nat) (s : source) (fs : list filter) (limit : Z) (node : desc) (k : nat) (roots : list desc),
+    find_roots_e fuel s fs limit node k = ROk roots -> find_roots fuel s fs limit node = Some roots.
+Proof. exact find_roots_e_success. Qed.
+Print Assumptions C03_errors_surface.
+
+Theorem C03_no_fault_agrees :
+  forall (fuel : nat) (s : source) (fs : list filter) (limit : Z) (node : desc),
+    find_roots_e fuel s fs limit node 0 =
+    match find_roots fuel s fs limit node with Some roots => ROk roots | None => RFuel end.
+Proof. exact find_roots_e_nofault. Qed.
+Print Assumptions C03_no_fault_agrees.
+
+(* a reached fault is an error: e.g. the very first operation *)
+Theorem C03_first_operation_fails :
+  forall (fuel : nat) (s : source) (fs : list filter) (limit : Z) (node : desc),
+    (limit <= 0)%Z -> find_roots_e (S fuel) s fs limit node 1 = RErr.
+Proof. exact find_roots_e_first_op. Qed.
+Print Assumptions C03_first_operation_fails.
+
 (* Filters: whatever descriptors the source serves ([served_ok]: fields present or
    missing, as long as present fields are the manifest's; complete when the source
    is a ReferrerLister, whose first filter does not fetch), a predecessor is followed exactly
